@@ -56,6 +56,9 @@ func Sign(ctx context.Context, rsfBytes []byte, r io.Reader, cert *certloader.Ce
 		return nil, nil, err
 	}
 	oldSize := nr.n
+	if bundleSize < 0 || bundleSize > oldSize {
+		return nil, nil, errors.New("udif header: XML plist extends beyond the end of the image")
+	}
 	// generate patch
 	rsf.SignatureLength = int64(len(blob))
 	var b bytes.Buffer
